@@ -9,7 +9,7 @@ import (
 )
 
 func genC14(cfg runCfg, e *emitter, rng *rand.Rand) {
-	nHist := tierN(cfg, 700, 8000)
+	nHist := tierN(cfg, 1500, 8000)
 	for hI := 0; hI < nHist; hI++ {
 		e.line("CASE pc%d", hI)
 		e.line("RESET")
